@@ -207,6 +207,7 @@ func checkC07(c *Ctx, r *Report) {
 	ruleHelperShape(c, r, "C07.d", helperShape{Fn: "generator/swagen/swagtool.IsFieldRequired", AllowedCalls: []string{"strings.Split"}, MustConsts: []string{",", "required"},
 		Why: "a property is listed under `required` iff `required` is one of the comma-separated rules of its validate tag"})
 
+	ruleIRWriters(c, r, "C07.b", "definitions.StructMetadata", "definitions.FieldMetadata", "definitions.EnumMetadata", "definitions.AliasMetadata", "definitions.NakedAliasMetadata", "definitions.Models")
 	// every element filter in these packages is a reviewed one
 	ruleSkipInventory(c, r, "C07.e", loadSkipTable(c.VerifDir), 6, "generator/swagen", "core/metadata", "core/visitors")
 }
